@@ -81,6 +81,7 @@ type Witness struct {
 	Now         string            `json:"answer_after_revert,omitempty"`
 	Roots       map[string]string `json:"roots,omitempty"`
 	CommitError string            `json:"commit_error,omitempty"`
+	View        []string          `json:"reads_after_root_and_reopen,omitempty"`
 	CodeMissing []string          `json:"code_missing_for,omitempty"`
 	FromCase    int               `json:"from_case_index"`
 	FromLen     int               `json:"from_history_length"`
@@ -131,6 +132,9 @@ func resFindings(res *twinResult) []rawFinding {
 	}
 	if len(res.codeMissing) > 0 {
 		out = append(out, rawFinding{oracle: "code", kind: "code-hash-without-blob", global: true})
+	}
+	if len(res.view) > 0 && !res.mismatch() && res.bothCommitErr == "" {
+		out = append(out, rawFinding{oracle: "view", kind: "state-after-root-differs", global: true})
 	}
 	return out
 }
@@ -320,6 +324,17 @@ func evalCase(r *mon.Run, d account.AccountDatabase, c Case, ci int, stats bool)
 	if !local && len(h) > 0 { // all reverted regions removed at once; only new information if no single region already differs
 		twin(h, 0, "all_regions")
 	}
+	if len(h) > 0 && rev != nil { // end-of-history root also under the other deleteEmptyObjects value
+		any := false
+		for _, b := range rev {
+			any = any || b
+		}
+		if any {
+			other := c.Final
+			other.D = !other.D
+			twinFM(h, 0, "end_other_delete_empty", other, true)
+		}
+	}
 	if failedCommit != nil { // the failing Commit of the history, against the twin without reverted regions
 		twinFM(h, 0, "failed_commit_in_history", *failedCommit, true)
 	}
@@ -336,7 +351,7 @@ func evalCase(r *mon.Run, d account.AccountDatabase, c Case, ci int, stats bool)
 			}
 		}
 		f.raw = f.oracle + "|" + f.kind + "|" + cls + "|" + groupList(fams)
-		if f.oracle == "commit" || f.oracle == "code" {
+		if f.oracle == "commit" || f.oracle == "code" || f.oracle == "view" {
 			f.raw = "ingredient-free|" + f.raw
 		}
 		if f.oracle == "twin" || f.oracle == "twin-nodiff" || f.oracle == "twin-panic" {
@@ -449,6 +464,10 @@ func reduceDepth(r *mon.Run, d account.AccountDatabase, c Case, f rawFinding, bu
 	case "commit":
 		pred = func(fm finalMode) func([]Op) bool {
 			return twinPred(fm, func(res *twinResult) bool { return res.commitErr != "" })
+		}
+	case "view":
+		pred = func(fm finalMode) func([]Op) bool {
+			return twinPred(fm, func(res *twinResult) bool { return len(res.view) > 0 && !res.mismatch() })
 		}
 	case "code":
 		pred = func(fm finalMode) func([]Op) bool {
@@ -602,8 +621,24 @@ func reduceDepth(r *mon.Run, d account.AccountDatabase, c Case, f rawFinding, bu
 			})
 			return ok
 		}
+		w.View = res.view
 		sig := "C04:twin-root:unexplained:" + cls + ":" + kind + suffix
-		if ing, ok := needs(m, fm, differs); ok {
+		touchOnly := false
+		if s, e, ok := regionBounds(m, f.label); ok && f.label != 0 {
+			touchOnly = true
+			for _, o := range m[s : e+1] {
+				if fam := family[o.K]; fam != "" && fam != "touch" {
+					touchOnly = false
+				}
+			}
+		}
+		if f.oracle == "twin" && kind == "only-in-twin" && touchOnly {
+			// The history without the region keeps the account, the history with the region loses
+			// it, and the region only "touched" it (zero-amount operations): a class of its own,
+			// never folded into the ingredient classes of the known empty-account deviations.
+			sig = "C04:twin-root:touched-empty-account-lost-after-revert" + suffix
+			what += fmt.Sprintf("; reads: %v", res.view)
+		} else if ing, ok := needs(m, fm, differs); ok {
 			// Existence disagreements caused by empty-account deletion are split by what was
 			// reverted (reads only / mutators) and by which side keeps the account; the other
 			// classes are named by the ingredient alone.
@@ -629,6 +664,12 @@ func reduceDepth(r *mon.Run, d account.AccountDatabase, c Case, f rawFinding, bu
 		}
 		r.Violation("C04:accessor:"+f.item.Acc+":"+trigger,
 			fmt.Sprintf("[%s] %s answered %q when the snapshot was taken and %q after reverting to it; history %v (account kind before the region: %s)", c.Mode, w.Accessor, w.Was, w.Now, hist, detail), w)
+	case "view":
+		th, _ := twinOf(m, f.label)
+		res := twinCheck(d, m, th, fm)
+		w.View = res.view
+		r.Violation("C04:exist:after-root-differs-from-twin"+suffix,
+			fmt.Sprintf("[%s] roots agree, but after the history %v the state answers differently from the twin without the reverted region: %v", c.Mode, hist, res.view), w)
 	case "commit", "code":
 		th, _ := twinOf(m, f.label)
 		res := twinCheck(d, m, th, fm)
